@@ -223,3 +223,110 @@ def check(sc):
     except Exception as e:
         out.append(('scenario:EXC:' + type(e).__name__, str(e)[:300]))
     return out
+
+
+# ================================================================================================ pending members of cached collections
+# Second scenario family: Entity.to_dict(with_collections=True) must report the keys of collection members that were created in
+# this session and are not flushed yet (automatic keys), also when the collection was cached BEFORE the member was created
+# (then no SELECT -- and no implicit flush -- happens while the collection is read).
+#
+#   {"groups": n, "courses": n, "students": [[group|None, [course, ...]], ...],        committed state
+#    "preload": [["g"|"k"|"s", index], ...],                                           to_dict(with_collections=True) taken first (fills the cache)
+#    "mods": [["new_s", group|None, [course, ...]] | ["new_k", [student, ...]] | ["new_g"] | ["move_s", student, group|None] | ["enroll", student, course]],
+#    "probe": [["g"|"k"|"s", index], ...], "related_objects": bool}
+
+def make_db2():
+    from pony import orm
+    if 'db2' in _state:
+        db = _state['db2']
+        db.drop_all_tables(with_all_data=True)
+        db.create_tables()
+        return db, _state['G'], _state['S'], _state['K']
+    db = orm.Database()
+    g = globals()
+    class G(db.Entity):
+        number = orm.PrimaryKey(int)
+        students = orm.Set('S')
+    class S(db.Entity):
+        name = orm.Required(str)
+        group = orm.Optional(G)
+        courses = orm.Set('K')
+    class K(db.Entity):
+        name = orm.Required(str)
+        students = orm.Set(S)
+    for cls in (G, S, K):
+        cls.__qualname__ = cls.__name__; cls.__module__ = __name__
+        g[cls.__name__] = cls
+    db.bind('sqlite', ':memory:')
+    db.generate_mapping(create_tables=True)
+    _state.update(db2=db, G=G, S=S, K=K)
+    return db, G, S, K
+
+
+def check_pending(sc):
+    from pony import orm
+    out = []
+    db, G, S, K = make_db2()
+    # shadow: students [{'id', 'group': index|None, 'courses': set(index)}], groups by index (number = index + 1), courses by index (id = index + 1)
+    studs = [{'id': i + 1, 'name': 's%d' % (i + 1), 'group': g, 'courses': set(cs)} for i, (g, cs) in enumerate(sc['students'])]
+    n_g, n_k = sc['groups'], sc['courses']
+    with orm.db_session:
+        gobj = [G(number=i + 1) for i in range(n_g)]
+        kobj = [K(name='k%d' % (i + 1)) for i in range(n_k)]
+        orm.flush()
+        sobj = []
+        for st in studs:
+            sobj.append(S(name=st['name'], group=None if st['group'] is None else gobj[st['group']], courses=[kobj[c] for c in sorted(st['courses'])]))
+            orm.flush()
+    def expect(kind, i):
+        if kind == 'g': return {'number': i + 1, 'students': sorted(st['id'] for st in studs if st['group'] == i)}
+        if kind == 'k': return {'id': i + 1, 'name': 'k%d' % (i + 1), 'students': sorted(st['id'] for st in studs if i in st['courses'])}
+        st = studs[i]
+        return {'id': st['id'], 'name': st['name'], 'group': None if st['group'] is None else st['group'] + 1, 'courses': sorted(c + 1 for c in st['courses'])}
+    def key_of(o):
+        if o is None: return None
+        return o.number if isinstance(o, G) else o.id
+    try:
+        with orm.db_session:
+            gobj = [G[i + 1] for i in range(n_g)]
+            kobj = [K[i + 1] for i in range(n_k)]
+            sobj = [S[i + 1] for i in range(len(studs))]
+            pick = lambda kind, i: {'g': gobj, 'k': kobj, 's': sobj}[kind][i]
+            for kind, i in sc.get('preload', []):
+                got = pick(kind, i).to_dict(with_collections=True)
+                if got != expect(kind, i): out.append(('entity.to_dict:committed:wrong-values', {'obj': [kind, i], 'got': norm(got), 'want': expect(kind, i)}))
+            for m in sc.get('mods', []):
+                t = m[0]
+                if t == 'new_s':
+                    studs.append({'id': len(studs) + 1, 'name': 'n%d' % (len(studs) + 1), 'group': m[1], 'courses': set(m[2])})
+                    sobj.append(S(name=studs[-1]['name'], group=None if m[1] is None else gobj[m[1]], courses=[kobj[c] for c in m[2]]))
+                elif t == 'new_k':
+                    n_k += 1
+                    kobj.append(K(name='k%d' % n_k, students=[sobj[s] for s in m[1]]))
+                    for s in m[1]: studs[s]['courses'].add(n_k - 1)
+                elif t == 'new_g':
+                    n_g += 1; gobj.append(G(number=n_g))
+                elif t == 'move_s': sobj[m[1]].group = None if m[2] is None else gobj[m[2]]; studs[m[1]]['group'] = m[2]
+                elif t == 'enroll': sobj[m[1]].courses.add(kobj[m[2]]); studs[m[1]]['courses'].add(m[2])
+                else: raise ValueError(m)
+            ro = bool(sc.get('related_objects'))
+            for kind, i in sc['probe']:
+                want = expect(kind, i)
+                try:
+                    got = pick(kind, i).to_dict(with_collections=True, related_objects=ro)
+                except Exception as e:
+                    out.append(('entity.to_dict:pending:EXC:' + type(e).__name__, {'obj': [kind, i], 'error': str(e)[:160], 'want': want})); continue
+                if ro:
+                    got = {f: ([key_of(x) for x in v] if isinstance(v, list) else (key_of(v) if isinstance(v, (G, S, K)) else v)) for f, v in got.items()}
+                if norm(got) != norm(want):
+                    out.append(('entity.to_dict:pending:wrong-values', {'obj': [kind, i], 'related_objects': ro, 'got': norm(got), 'want': norm(want)}))
+            orm.commit()
+        # the shadow itself against the database (guards the oracle: ids of new objects are assigned in creation order)
+        with orm.db_session:
+            for kind, i in sc['probe']:
+                obj = {'g': G, 'k': K, 's': S}[kind][i + 1]
+                got = obj.to_dict(with_collections=True)
+                if norm(got) != norm(expect(kind, i)): out.append(('oracle:shadow-differs-from-database', {'obj': [kind, i], 'db': norm(got), 'shadow': norm(expect(kind, i))}))
+    except Exception as e:
+        out.append(('scenario:EXC:' + type(e).__name__, str(e)[:300]))
+    return out
